@@ -35,4 +35,10 @@ CHECKS = {
         "level_note": "Trusts the HashMap-of-keys reference scan; dictionary sizes and layer counts are those in the evidence counters.",
         "technique": "reference-model monitor (naive scan of source rows) + bounds monitors at hooks H3",
     },
+    "C05": {
+        "level_text": "Exploration: generated CSV + matrix are compiled and loaded by the real code; every field of every entry and every matrix cell is read back through the public API and compared with the source model; double compilation is compared byte-wise; loads from 8 base alignments are compared observation by observation. Held on the counted dictionaries.",
+        "design_ref": "DESIGN.md 6/C05",
+        "level_note": "Trusts the source model's resolution rule for inline references (own entries first, then system; key+POS+reading) and the CSV renderer.",
+        "technique": "reference-model monitor over compile->load round trips; differential monitor across alignments and repeated compilation",
+    },
 }
